@@ -6,7 +6,7 @@ import (
 	"github.com/robfig/soy/parse"
 )
 
-// lex <mode:file|expr> <hex input>  ->  OK Typ:pos:hexval;...   (Error items: Error:pos:-)
+// lex <mode:file|expr> <hex input>  ->  OK Typ:pos:hexval;...   (Error items: Error:pos:<class>, see lexErrClass)
 //
 // The real lexer runs in its own goroutine (`go l.run()`), so a runtime panic inside a
 // state function cannot be recovered here: it kills the worker process and the pool
@@ -31,12 +31,32 @@ func lexAnswer(f []string) string {
 		sb.WriteString(itoa(it.Pos))
 		sb.WriteByte(':')
 		if it.Typ == "Error" {
-			sb.WriteByte('-')
+			sb.WriteString(lexErrClass(it.Val))
 		} else {
 			sb.WriteString(hxs(it.Val))
 		}
 	}
 	return sb.String()
+}
+
+// lexErrClass maps the message of an Error item to the class byte that the model keeps in
+// the item's value (Model/Lexer.lean clsTag …): the five errorfAt messages, which name an
+// unclosed construct and are positioned at its opening delimiter, get 01..05; every
+// other (errorf) message is "-".
+func lexErrClass(msg string) string {
+	switch {
+	case strings.Contains(msg, "unclosed tag"):
+		return "01"
+	case strings.Contains(msg, "unexpected eof while scanning string"):
+		return "02"
+	case strings.Contains(msg, "unclosed block comment"):
+		return "03"
+	case strings.Contains(msg, "unexpected eof when scanning soydoc"):
+		return "04"
+	case strings.Contains(msg, "unclosed literal"):
+		return "05"
+	}
+	return "-"
 }
 
 func init() {
